@@ -12,7 +12,9 @@ function hook::run() {
     export BINDING_CONTEXT_CURRENT_BINDING=$(context::jq -r '.binding // "unknown"')
 
     HANDLERS=$(hook::_get_possible_handler_names)
-    HANDLERS="${HANDLERS} __main__"
+    # one handler name per line: a binding name may contain blanks or glob characters
+    HANDLERS="${HANDLERS}
+__main__"
 
     hook::_run_first_available_handler "${HANDLERS}"
   done
@@ -24,43 +26,43 @@ function hook::_get_possible_handler_names() {
   elif BINDING_CONTEXT_CURRENT_TYPE=$(context::jq -er '.type'); then
     case "${BINDING_CONTEXT_CURRENT_TYPE}" in
     "Synchronization")
-      echo __on_kubernetes::${BINDING_CONTEXT_CURRENT_BINDING}::synchronization
-      echo __on_kubernetes::${BINDING_CONTEXT_CURRENT_BINDING}
+      echo "__on_kubernetes::${BINDING_CONTEXT_CURRENT_BINDING}::synchronization"
+      echo "__on_kubernetes::${BINDING_CONTEXT_CURRENT_BINDING}"
     ;;
     "Event")
       case "$(context::jq -r '.watchEvent')" in
       "Added")
-        echo __on_kubernetes::${BINDING_CONTEXT_CURRENT_BINDING}::added
-        echo __on_kubernetes::${BINDING_CONTEXT_CURRENT_BINDING}::added_or_modified
-        echo __on_kubernetes::${BINDING_CONTEXT_CURRENT_BINDING}
+        echo "__on_kubernetes::${BINDING_CONTEXT_CURRENT_BINDING}::added"
+        echo "__on_kubernetes::${BINDING_CONTEXT_CURRENT_BINDING}::added_or_modified"
+        echo "__on_kubernetes::${BINDING_CONTEXT_CURRENT_BINDING}"
       ;;
       "Modified")
-        echo __on_kubernetes::${BINDING_CONTEXT_CURRENT_BINDING}::modified
-        echo __on_kubernetes::${BINDING_CONTEXT_CURRENT_BINDING}::added_or_modified
-        echo __on_kubernetes::${BINDING_CONTEXT_CURRENT_BINDING}
+        echo "__on_kubernetes::${BINDING_CONTEXT_CURRENT_BINDING}::modified"
+        echo "__on_kubernetes::${BINDING_CONTEXT_CURRENT_BINDING}::added_or_modified"
+        echo "__on_kubernetes::${BINDING_CONTEXT_CURRENT_BINDING}"
       ;;
       "Deleted")
-        echo __on_kubernetes::${BINDING_CONTEXT_CURRENT_BINDING}::deleted
-        echo __on_kubernetes::${BINDING_CONTEXT_CURRENT_BINDING}
+        echo "__on_kubernetes::${BINDING_CONTEXT_CURRENT_BINDING}::deleted"
+        echo "__on_kubernetes::${BINDING_CONTEXT_CURRENT_BINDING}"
       ;;
       esac
     ;;
     "Group")
       BINDING_CONTEXT_GROUP_NAME=$(context::jq -er '.groupName')
-      echo __on_group::${BINDING_CONTEXT_GROUP_NAME}
+      echo "__on_group::${BINDING_CONTEXT_GROUP_NAME}"
     ;;
     "Schedule")
-      echo __on_schedule::${BINDING_CONTEXT_CURRENT_BINDING}
+      echo "__on_schedule::${BINDING_CONTEXT_CURRENT_BINDING}"
     ;;
     "Validating")
-      echo __on_validating::${BINDING_CONTEXT_CURRENT_BINDING}
+      echo "__on_validating::${BINDING_CONTEXT_CURRENT_BINDING}"
     ;;
     "Mutating")
-      echo __on_mutating::${BINDING_CONTEXT_CURRENT_BINDING}
+      echo "__on_mutating::${BINDING_CONTEXT_CURRENT_BINDING}"
     ;;
     "Conversion")
-      echo __on_conversion::${BINDING_CONTEXT_CURRENT_BINDING}::$(context::jq -er '[.fromVersion,.toVersion]| map(sub("/";".")) | join("::")')
-      echo __on_conversion::${BINDING_CONTEXT_CURRENT_BINDING}
+      echo "__on_conversion::${BINDING_CONTEXT_CURRENT_BINDING}::$(context::jq -er '[.fromVersion,.toVersion]| map(sub("/";".")) | join("::")')"
+      echo "__on_conversion::${BINDING_CONTEXT_CURRENT_BINDING}"
     ;;
     esac
   fi
@@ -69,13 +71,16 @@ function hook::_get_possible_handler_names() {
 function hook::_run_first_available_handler() {
   HANDLERS="$1"
 
-  for handler in ${HANDLERS}; do
-    if type $handler >/dev/null 2>&1; then
-      ($handler) # brackets are to run handler as a subprocess
+  local -a names
+  mapfile -t names <<< "${HANDLERS}"
+  for handler in "${names[@]}"; do
+    [[ -n "${handler}" ]] || continue
+    if type "$handler" >/dev/null 2>&1; then
+      ("$handler") # brackets are to run handler as a subprocess
       return $?
     fi
   done
 
-  >&2 printf "ERROR: Can't find any handler from the list: %s\n." "$(echo ${HANDLERS} | sed -E 's/[[:space:]]+/, /g')"
+  >&2 printf "ERROR: Can't find any handler from the list: %s\n." "$(printf '%s, ' "${names[@]}" | sed -E 's/^, //; s/, $//')"
   return 1
 }
